@@ -32,6 +32,8 @@ type SeqCfg struct {
 	// possibly with the same connection id): the observed tunnel starts from a non-initial
 	// gateway state. Dials and backend bytes of the prelude are not attributed to the steps.
 	Prelude func(w *World, h http.Handler, gw *protocol.Gateway)
+	// BackendWindow: see World.BackendWindow (the host reads only when a segment with Action "hostdrain" says so)
+	BackendWindow int
 }
 
 // Seg is one transport segment sent by the client, or a control action.
@@ -41,6 +43,9 @@ type Seg struct {
 	Action string // "" send | "close" client drops its connection(s) | "backend:<hex>" unused
 	Frags  [][]byte
 	NoWait bool // do not wait for quiescence after this segment (burst)
+	// HostSay != nil: instead of the client sending, the remote desktop host (first backend) writes these bytes
+	// (an empty slice is an empty write: the gateway's read returns no bytes and no error)
+	HostSay []byte
 }
 
 // StepObs is what was observed after one segment, at quiescence.
@@ -86,6 +91,7 @@ func RunSeq(cfg SeqCfg, segs []Seg) *SeqResult {
 		w := NewWorld()
 		res.World = w
 		w.Accept = cfg.Accept
+		w.BackendWindow = cfg.BackendWindow
 		if len(cfg.BackendSay) > 0 {
 			w.OnBackend = func(b *Backend) {
 				for _, s := range cfg.BackendSay {
@@ -134,6 +140,18 @@ func RunSeq(cfg SeqCfg, segs []Seg) *SeqResult {
 		nd, nb := preDials, preBytes
 		for _, s := range segs {
 			switch {
+			case s.HostSay != nil:
+				if len(w.Backends) > 0 {
+					w.Backends[0].Conn.Write(s.HostSay)
+				}
+			case s.Action == "deadlines":
+				// time passes until every deadline that is set has fired
+				vsched.AwaitTimers()
+			case s.Action == "hostdrain":
+				// the host reads everything that is waiting for it
+				if len(w.Backends) > 0 {
+					w.Backends[0].Conn.Pending()
+				}
 			case s.Action == "close":
 				c.CloseClient()
 			case len(s.Frags) > 0:
